@@ -215,7 +215,7 @@ TrFound ==
   /\ LET key == cur.keys[e.k + 1]
          want == Find(cur.doc, key) IN
      IF e.out = "panic" THEN Bad("find_panic", [key |-> key, repr |-> e.repr])
-     ELSE IF ~WellFormedPath(key) THEN Good                      \* totality only
+     ELSE IF ~CheckablePath(key) THEN Good                       \* totality only
      ELSE IF (e.out = "none") # IsNone(want) THEN Bad("find_value", [key |-> key, repr |-> e.repr, out |-> e.out, want |-> want])
      ELSE IF e.out = "some" /\ e.v # want THEN Bad("find_value", [key |-> key, repr |-> e.repr, got |-> e.v, want |-> want])
      ELSE Good
